@@ -9,9 +9,14 @@
    AllowN(base + offset, 1) on that instance's limiter.
 
    The Go limiter computes in float64, the model in exact integers.  A decision
-   whose exact token level lies within 10^-6 token of the decision threshold is
-   not compared (it is counted): there the model FOLLOWS the implementation's
-   decision so that the two states stay aligned for the rest of the case. *)
+   whose exact token level lies within `eps` of the decision threshold is not
+   compared (it is counted): there the model FOLLOWS the implementation's
+   decision so that the two states stay aligned for the rest of the case.
+   DESIGN.md allows 10^-6 token for eps; 10^-8 token is used: the threshold sits
+   at a deficit of rate * 10^-9 token (one nanosecond of refill), an arrival
+   that is exactly on time has level 0, and with eps = 10^-6 every on-time
+   arrival at rate 1000/s would go uncompared.  float64 error on levels <= 1000
+   tokens over <= 1300 operations stays below 10^-9 token. *)
 From VF Require Import Base.Prelude Model.Limiter Spec.LimiterSpec.
 Open Scope Z_scope.
 
@@ -23,14 +28,31 @@ Record lcase := mkLCase {
   lc_obs : list (time * bool);
 }.
 
+(* Arrival instants are written in the case files as arithmetic runs
+   (first instant, spacing, count) — bursts and steady streams are long runs —
+   and expanded here; the admitted/refused flags are listed one per arrival. *)
+Fixpoint run_of (t d : Z) (k : nat) : list time :=
+  match k with
+  | O => []
+  | S k' => t :: run_of (t + d) d k'
+  end.
+
+Definition expand_run (r : Z * Z * Z) : list time :=
+  let '(t, d, k) := r in run_of t d (Z.to_nat k).
+
+Definition expand (runs : list (Z * Z * Z)) : list time := flat_map expand_run runs.
+
+Definition observed (runs : list (Z * Z * Z)) (adm : list bool) : list (time * bool) :=
+  combine (expand runs) adm.
+
 (* can the model take the measured rate?  (whole tokens per second, finite) *)
 Definition representable (c : lcase) : bool :=
   (0 <=? lc_rate_milli c) && (lc_rate_milli c mod 1000 =? 0).
 
 Definition model_init (c : lcase) : lim := init (lc_rate_milli c / 1000) (lc_burst c).
 
-(* 10^-6 token in the model's units *)
-Definition eps : Z := 1000.
+(* 10^-8 token in the model's units of 10^-9 token *)
+Definition eps : Z := 10.
 
 (* the decision flips where level = -rate (rate >= 1) or level = 0 (rate <= 0) *)
 Definition near_threshold (now : time) (s : lim) : bool :=
